@@ -134,6 +134,13 @@ inductive Stmt where
   | aload (dst : Nat) (dt : Ty) (arr : Nat) (t : Ty) (n xb : Nat) (idx : Expr)
   /-- `a[idx] = e;` — `e` already converted to the element type `t` -/
   | astore (arr : Nat) (t : Ty) (n xb : Nat) (idx : Expr) (e : Expr3)
+  /-- `x = p[idx];` — `p` (variable `k`) is a read-only array parameter `const t p[w]`, i.e. a pointer; `c0` is
+      the first of the `w` cells through which the callee sees the elements of the caller's array. -/
+  | pload (dst : Nat) (dt : Ty) (k : Nat) (t : Ty) (w c0 : Nat) (idx : Expr)
+  /-- `[x =] f(a₁, …, aₘ, args);` — a call whose first arguments are local arrays (`pargs`: variable, element
+      type, number of elements, cell of element 1), passed to read-only array parameters. -/
+  | callp (dst : Option (Nat × Ty)) (rt : Ty) (fn : String) (pargs : List (Nat × Ty × Nat × Nat))
+      (args : List Expr)
   deriving Repr, Inhabited
 
 inductive Outcome where
@@ -207,6 +214,9 @@ structure Func where
   /-- number of elements of the locals that are arrays (`lcnts[j]` for local `j`; missing entries and
       scalars: 1) -/
   lcnts : List Nat := []
+  /-- read-only array parameters `const t p[w]`: they are the FIRST parameters (of type `unsigned long` in
+      `params`: pointers), `pwin[j] = (t, w)` for parameter `j` -/
+  pwin : List (Ty × Nat) := []
   deriving Repr, Inhabited
 
 def Func.vtys (f : Func) : List Ty := f.params ++ f.locals
@@ -224,18 +234,30 @@ def xbase (cnts : List Nat) (k : Nat) : Nat := cnts.length + xcount cnts k
 /-- number of cells beyond one per variable -/
 def Func.extra (f : Func) : Nat := xcount f.cnts f.cnts.length
 
-/-- The store on entry: the arguments, every local (and every array element) indeterminate. -/
-def initStore (f : Func) (ρ : List Int) : Store :=
-  ρ.map some ++ List.replicate (f.locals.length + f.extra) none
+/-- the cells through which the elements behind the array parameters are seen come after all others -/
+def Func.wtotal (f : Func) : Nat := (f.pwin.map (·.2)).sum
+
+/-- first window cell of array parameter `j` -/
+def Func.wbase (f : Func) (j : Nat) : Nat :=
+  f.vtys.length + f.extra + ((f.pwin.take j).map (·.2)).sum
+
+/-- The store on entry: the arguments (an array parameter itself has no integer value), every local (and every
+    array element) indeterminate, then the elements `ws` seen through the array parameters. -/
+def initStore (f : Func) (ρ : List Int) (ws : List (Option Int) := []) : Store :=
+  List.replicate f.pwin.length none ++ (ρ.drop f.pwin.length).map some ++
+    List.replicate (f.locals.length + f.extra) none ++ ws
 
 /-- The function a call names: the first function of the program with that name. -/
 def lookup (P : List Func) (fn : String) : Option Func := P.find? fun g => g.name == fn
 
-/-- Big-step execution with fuel (one unit per nesting level / loop iteration / call) in the program `P`
-    (the functions a call may name; `[]` for a single function: a call then has no meaning).  A call
-    evaluates the arguments in the caller's store, executes the callee's body on a fresh store with
-    fuel one less and, if a variable receives the result, converts the returned value to its type
-    (6.5.16.1p2); flowing off the end of the callee without `return` is undefined here. -/
+/-- the elements the callee sees through its array parameters `pw`: copies of the cells of the argument
+    arrays (exact, since the callee only reads them and the caller is suspended meanwhile) -/
+def windows (s : Store) : List (Ty × Nat) → List (Nat × Ty × Nat × Nat) → List (Option Int)
+  | (_, w) :: pw, (arr, _, _, xb) :: pa =>
+    (List.range w).map (fun e => (s[ecell arr xb e]?).join) ++ windows s pw pa
+  | _, _ => []
+
+/-- what the call `fn(vs)` returns when the bodies are executed by `run` -/
 def callOf (P : List Func) (run : Store → Stmt → Option Outcome) (fn : String) (vs : List Int) :
     Option Int :=
   match lookup P fn with
@@ -245,6 +267,11 @@ def callOf (P : List Func) (run : Store → Stmt → Option Outcome) (fn : Strin
     | some (.ret v) => some v
     | _ => none
 
+/-- Big-step execution with fuel (one unit per nesting level / loop iteration / call) in the program `P`
+    (the functions a call may name; `[]` for a single function: a call then has no meaning).  A call
+    evaluates the arguments in the caller's store, executes the callee's body on a fresh store with
+    fuel one less and, if a variable receives the result, converts the returned value to its type
+    (6.5.16.1p2); flowing off the end of the callee without `return` is undefined here. -/
 def exec (cs : Bool) (P : List Func) : Nat → Store → Stmt → Option Outcome
   | 0, _, _ => none
   | _ + 1, s, .skip => some (.normal s)
@@ -335,6 +362,24 @@ def exec (cs : Bool) (P : List Func) : Nat → Store → Stmt → Option Outcome
     (evalE3 cs (callOf P fun s' st' => exec cs P m s' st') s e).bind fun v => (evalE cs s idx).bind fun iv =>
       if 0 ≤ iv ∧ iv < (n : Int) then some (.normal (s.set (ecell arr xb iv.toNat) (some v)))
       else none
+  | _ + 1, s, .pload dst dt _ t w c0 idx =>
+    (evalE cs s idx).bind fun iv =>
+      if 0 ≤ iv ∧ iv < (w : Int) then
+        ((s[c0 + iv.toNat]?).join).map fun v =>
+          .normal (s.set dst (some (conv (t.intTy cs) (dt.intTy cs) v)))
+      else none
+  | n + 1, s, .callp dst rt fn pargs args =>
+    match lookup P fn with
+    | none => none
+    | some g =>
+      (evalArgs cs s args).bind fun vs =>
+        match exec cs P n (initStore g (List.replicate g.pwin.length 0 ++ vs) (windows s g.pwin pargs))
+            g.body with
+        | some (.ret v) =>
+          (match dst with
+           | none => some (.normal s)
+           | some (i, t) => some (.normal (s.set i (some (conv (rt.intTy cs) (t.intTy cs) v)))))
+        | _ => none
 
 /-- The value the call returns: `some v` if the body executes a `return` with value `v` within
     `fuel`; flowing off the end of the function without `return` counts as undefined here (its
@@ -499,12 +544,19 @@ def Stmt.wt (vtys : List Ty) (ret : Ty) : Bool → Bool → Nat → Stmt → Opt
     if arr < nd ∧ vtys[arr]? = some t ∧ idx.wt (vtys.take nd) = true ∧ e.ty = t ∧
         e.wt (vtys.take nd) = true
     then some nd else none
+  | _, _, nd, .pload dst dt k _ _ _ idx =>
+    if dst < nd ∧ vtys[dst]? = some dt ∧ k < nd ∧ vtys[k]? = some .ulong ∧ idx.wt (vtys.take nd) = true
+    then some nd else none
+  | _, _, nd, .callp dst _ _ pargs args =>
+    if args.all (fun e => e.wt (vtys.take nd)) = true ∧ dstOK vtys nd dst = true ∧
+        pargs.all (fun a => decide (a.1 < nd) && (vtys[a.1]? == some a.2.1)) = true
+    then some nd else none
 
 def Expr3.callsOK (P : List Func) : Expr3 → Bool
   | .pure _ | .idx .. => true
   | .call rt fn args =>
     match lookup P fn with
-    | some g => g.ret == rt && args.map (·.ty) == g.params
+    | some g => g.ret == rt && args.map (·.ty) == g.params && g.pwin.isEmpty
     | none => false
   | .cast _ e | .neg _ e => e.callsOK P
   | .bin _ _ l r => l.callsOK P && r.callsOK P
@@ -529,12 +581,20 @@ def callsOK (P : List Func) : Stmt → Bool
   | .dowhile b c => c.callsOK P && callsOK P b
   | .for_ none st b => callsOK P st && callsOK P b
   | .for_ (some c) st b => c.callsOK P && callsOK P st && callsOK P b
-  | .case_ _ | .default_ | .adecl .. | .aload .. => true
+  | .case_ _ | .default_ | .adecl .. | .aload .. | .pload .. => true
+  | .callp _ rt fn pargs args =>
+    match lookup P fn with
+    | some g =>
+      g.ret == rt && g.params == List.replicate pargs.length Ty.ulong ++ args.map (·.ty) &&
+        g.pwin.length == pargs.length &&
+        (List.zipWith (fun (pw : Ty × Nat) (pa : Nat × Ty × Nat × Nat) =>
+          pw.1 == pa.2.1 && decide (pw.2 ≤ pa.2.2.1)) g.pwin pargs).all id
+    | none => false
   | .astore _ _ _ _ _ e => e.callsOK P
   | .switch_ e b => e.callsOK P && callsOK P b
   | .call _ rt fn args =>
     match lookup P fn with
-    | some g => g.ret == rt && args.map (·.ty) == g.params
+    | some g => g.ret == rt && args.map (·.ty) == g.params && g.pwin.isEmpty
     | none => false
 
 /-- the array statements agree with the layout: the declared count of the variable, at least one element,
@@ -549,7 +609,10 @@ def arrsOK (cnts : List Nat) : Stmt → Bool
   | .dowhile b c => c.arrsOK cnts && arrsOK cnts b
   | .for_ none st b => arrsOK cnts st && arrsOK cnts b
   | .for_ (some c) st b => c.arrsOK cnts && arrsOK cnts st && arrsOK cnts b
-  | .case_ _ | .default_ | .call .. => true
+  | .case_ _ | .default_ | .call .. | .pload .. => true
+  | .callp _ _ _ pargs _ =>
+    pargs.all fun a => decide (1 ≤ a.2.2.1) && decide (cnts[a.1]? = some a.2.2.1) &&
+      decide (a.2.2.2 = xbase cnts a.1)
   | .switch_ e b => e.arrsOK cnts && arrsOK cnts b
   | .adecl i _ n xb => decide (1 ≤ n) && decide (cnts[i]? = some n) && decide (xb = xbase cnts i)
   | .aload _ _ arr _ n xb _ => decide (1 ≤ n) && decide (cnts[arr]? = some n) && decide (xb = xbase cnts arr)
@@ -568,9 +631,37 @@ def declsOK (cnts : List Nat) : Stmt → Bool
   | .switch_ _ b => declsOK cnts b
   | _ => true
 
+/-- the array parameters are used consistently: `p[i]` names a parameter with its declared element type,
+    length and window cells; nothing is assigned to an array parameter (it is a pointer: the statements
+    here treat variables as integers) and it is not passed on -/
+def ptrsOK (pw : List (Ty × Nat)) (wb : Nat → Nat) : Stmt → Bool
+  | .decl i _ _ | .assign i _ _ | .incdec i _ _ | .adecl i _ _ _ | .astore i _ _ _ _ _ => decide (pw.length ≤ i)
+  | .aload dst _ arr _ _ _ _ => decide (pw.length ≤ dst) && decide (pw.length ≤ arr)
+  | .call dst _ _ _ =>
+    (match dst with
+     | some (i, _) => decide (pw.length ≤ i)
+     | none => true)
+  | .callp dst _ _ pargs _ =>
+    (match dst with
+     | some (i, _) => decide (pw.length ≤ i)
+     | none => true) && pargs.all fun a => decide (pw.length ≤ a.1)
+  | .pload dst _ k t w c0 _ =>
+    decide (pw.length ≤ dst) && decide (pw[k]? = some (t, w)) && decide (c0 = wb k)
+  | .seq a b => ptrsOK pw wb a && ptrsOK pw wb b
+  | .ite _ a => ptrsOK pw wb a
+  | .itee _ a b => ptrsOK pw wb a && ptrsOK pw wb b
+  | .while_ _ b => ptrsOK pw wb b
+  | .dowhile b _ => ptrsOK pw wb b
+  | .for_ _ st b => ptrsOK pw wb st && ptrsOK pw wb b
+  | .switch_ _ b => ptrsOK pw wb b
+  | _ => true
+
 def Func.wt (f : Func) : Bool :=
   f.body.labelFree && Stmt.wt f.vtys f.ret false false f.params.length f.body == some f.vtys.length &&
-    arrsOK f.cnts f.body && declsOK f.cnts f.body && decide (f.extra ≤ 1000000)
+    arrsOK f.cnts f.body && declsOK f.cnts f.body && decide (f.extra ≤ 1000000) &&
+    ptrsOK f.pwin f.wbase f.body && (f.params.take f.pwin.length == List.replicate f.pwin.length Ty.ulong) &&
+    decide (f.pwin.length ≤ f.params.length) && f.pwin.all (fun q => decide (1 ≤ q.2)) &&
+    decide (f.wtotal ≤ 1000000)
 
 def WT (f : Func) : Prop := f.wt = true
 
